@@ -814,7 +814,8 @@ class Dict(dict, base.Symbolic, pg_typing.CustomTyping):
       # The cleared Dict is the value spec applied to an empty dict: make sure
       # that is acceptable (e.g. no required field is left without a value)
       # before anything is removed.
-      Dict(value_spec=value_spec, allow_partial=base.accepts_partial(self))
+      with flags.allow_writable_accessors(True):
+        Dict(value_spec=value_spec, allow_partial=base.accepts_partial(self))
     self._value_spec = None
     removed = list(self.sym_items())
     for _, value in removed:
